@@ -36,6 +36,32 @@ def oracle(log):
     return msgs
 
 
+def gen_list_script(rng, kind):
+    """valid histories on a free list driven directly: regions inserted in arbitrary order, nodes and arrays taken, released in arbitrary order"""
+    ns = rng.choice([8, 16, 16, 24, 40])
+    lines = ['%s %d%s' % (kind, ns, (' ' + rng.choice(['low', 'high'])) if kind == 'ord' else '')]
+    regions = []; off = 256
+    for _ in range(rng.randint(1, 4)):
+        cnt = rng.randint(2, 24); regions.append((off, cnt * ns)); off += cnt * ns + rng.choice([0, 0, 16, 64, 1024]) // 16 * 16
+    rng.shuffle(regions)
+    lines.append('ins %d %d' % regions[0]); pending = regions[1:]
+    live = 0
+    for _ in range(rng.randint(20, 150)):
+        r = rng.random()
+        if pending and r < 0.05:
+            lines.append('ins %d %d' % pending.pop())
+        elif r < 0.35:
+            lines.append('a'); live += 1
+        elif r < 0.5:
+            lines.append('aa %d' % (ns * rng.choice([2, 2, 3, 4, 5]) - rng.choice([0, 0, 1, ns // 2]))); live += 1
+        elif r < 0.9:
+            lines.append('d %d' % rng.choice([0, 0, 1, rng.randint(0, 60), max(0, live - 1)])); live = max(0, live - 1)
+        else:
+            lines.append('q')
+    lines += ['d 0'] * (live + 2) + ['q']
+    return '\n'.join(lines) + '\n'
+
+
 def run(ctx):
     ctx.regen(); ctx.prove()
     thorough = ctx.tier == 'thorough'
@@ -45,12 +71,20 @@ def run(ctx):
     except build.BuildError as e:
         ctx.tie_broken.append('replay driver: ' + str(e)[:300]); rexe = None
     cases = poolrun.make_cases(ctx, 400 if thorough else 50, 300 if thorough else 40, 0, 0, cfgs)
+    # the free lists themselves, driven directly, in lock-step with their Exec models (link order / sorted order, cursor)
+    import os
+    ex_list = {c: build.build_harness('invalid', c, ['h_invalid.cpp'], extra=['-I', os.path.join(build.REPO, 'src')]) for c in cfgs}
+    for i in range(120 if thorough else 20):
+        for kind, topic in (('unord', 'unord'), ('ord', 'ord')):
+            sc = gen_list_script(ctx.rng, kind)
+            for c in cfgs:
+                cases.append(dict(exe=ex_list[c], script=sc, replay_args=['ordered', topic], tag=('list', sc.split('\n')[0], c)))
     res = runner.run_cases(cases, rexe)
     ops = arrays = grows = 0; div = 0; per = {}
     for r in res:
         kind, tgt, c = r['case']['tag']; per[kind] = per.get(kind, 0) + 1
         ops += r['summ'].get('ops', 0); arrays += r['summ'].get('arrays', 0); grows += r['summ'].get('growths', 0)
-        mine = [d for d in r['div'] if poolrun.concerns(d, 'C04')]
+        mine = r['div'] if kind == 'list' else [d for d in r['div'] if poolrun.concerns(d, 'C04')]
         if r['rc'] != 0:
             ctx.tie_broken.append('harness exit %d on %s in %s' % (r['rc'], tgt, c))
         if mine:
@@ -63,7 +97,7 @@ def run(ctx):
                           dict(harness='h_pool.cpp', config=c, script=r['case']['script'].split('\n'), all=msgs[:5]))
     ctx.tie_broken = ctx.tie_broken[:6]
     ctx.cov.update(dict(
-        tie=dict(kind='Spec acceptance: every result must be a run of free nodes of a range handed to the list (insert hook), capacity_left / pool_capacity_left / next_capacity compared with the model after every operation, growth only when the list is empty',
+        tie=dict(kind='Spec acceptance: every result must be a run of free nodes of a range handed to the list (insert hook), capacity_left / pool_capacity_left / next_capacity compared with the model after every operation, growth only when the list is empty; the real free_memory_list and ordered_free_memory_list driven directly in lock-step with UnorderedList / OrderedList (every node in link order, cursor, which run an array request takes)',
                  configs=cfgs, histories_by_kind=per, histories=len(cases), operations=ops, array_requests=arrays, growths=grows, divergences=div),
         evaluations=len(cases), distinct_nontrivial=len(set(c['script'] for c in cases)),
         rule='seeded interleavings of node/array allocate/release through allocator_traits and composable traits on memory_pool<node|array|small> and memory_pool_collection<.., identity|log2> over growing/fixed sources, element sizes that round to a different node count, fill-to-exhaustion phases, object below/above its memory; distinct = distinct scripts'))
